@@ -1,6 +1,6 @@
 """C03 - inter-fragment bonds follow the base graph and the bonding-descriptor rules."""
 from .. import env  # noqa
-from .. import resgen, invariants
+from .. import resgen, invariants, molgen
 from ..runner import sut, expect
 from .c02 import run_steps
 
@@ -27,12 +27,19 @@ def budget(tier):
 
 
 def gen(R, tier):
-    case = resgen.gen_resolvable(R, tier, kinds=('fragset', 'fragset', 'fragset', 'cut', 'levels', 'multicut', 'shared'))
+    if R.chance(0.12):
+        # sulfur next to aromatic rings ('Sc' in the text), descriptors after such letter pairs
+        case = resgen.gen_cut_string(R, tier, min_frags=2, classes=[c for c in molgen.MOL_CLASSES if c['name'] == 'thioaryl'])
+    else:
+        case = resgen.gen_resolvable(R, tier, kinds=('fragset', 'fragset', 'fragset', 'cut', 'levels', 'multicut', 'shared'))
+    if case is not None:
+        case['constructor'] = R.choice(['string', 'string', 'graph', 'dicts'])
+        case['features'] = sorted(set(case['features']) | {'constructor:' + case['constructor']})
     return case
 
 
 def key(case):
-    return case['input'] + '|' + str(case['legacy'])
+    return case['input'] + '|' + str(case['legacy']) + '|' + case.get('constructor', 'string')
 
 
 def nontrivial(case):
